@@ -25,8 +25,11 @@ CLAIMED = {
         "marginal clustering, UNION ALL, summary statistics): for every graph and every threshold list each reported clustering has exactly the rows of "
         "clustering independently at that threshold (multi_eq_single, via the C05 theorems), stable clusters are clusters at the new threshold, every "
         "requested threshold is covered, statistics are those of that partition. Tie: real code vs compiled model on graph families x threshold lists "
-        "(all columns, per-threshold iteration traces, statistics); union-find oracle on the real output.",
-        "Trusted: Lean kernel + standard axioms; `>=` on non-NaN doubles is transitive and total (hypotheses of the theorems); correspondence harness; SQL engines.",
+        "(all columns, per-threshold iteration traces, statistics); union-find oracle on the real output. The seven SQL statements of one pass of the threshold loop and the statements of the marginal "
+        "connected-components run are captured from the running code and translated to relational-algebra terms on every run (T-sql: Generated/MultiSql.lean, CCSql.lean); Properties/C11Sql.lean proves "
+        "that this SQL pipeline under Rel.eval returns the rows of the functional model for every graph and threshold list, so the C11 theorems are theorems about the regenerated SQL.",
+        "Trusted: Lean kernel + standard axioms; `>=` on non-NaN doubles is transitive and total (hypotheses of the theorems); T-sql translator + Rel.eval as the meaning of SQL (validated against the engines on every run); "
+        "the hand-modelled Python loop control, the final n-ary join and the summary-statistics SQL (correspondence only); correspondence harness; SQL engines.",
         "DESIGN.md §6 C11",
     ),
     "C01": (
@@ -89,8 +92,8 @@ CLAIMED = {
         "Lean 4 theorems about a model of graph_metrics.py / edge_metrics.py (one def per SQL statement; igraph's bridge finder a parameter): degree = incident edges, handshake (sum of degrees = 2 x edges "
         "of the cluster), size / edge count / density / centralisation formulas with their NULL cases and ranges, node centrality, the integer id mapping is a bijection so bridge flags land on the right edges, "
         "a flagged edge is one whose removal disconnects its endpoints (the driver's bridge finder is PROVED to meet the specification: C19B.naiveBridges_meets_spec), centralisation <= 1 on every simple graph, "
-        "one row per record / edge / cluster. The SQL statements compute_graph_metrics emits now are regenerated as relational-algebra terms on every run (T-sql: Generated/GMSql.lean) and evaluated by Rel.eval "
-        "(exact rationals) against the engines. Tie: every column of nodes/edges/clusters outputs vs the compiled "
+        "one row per record / edge / cluster. The SQL statements compute_graph_metrics emits now are regenerated as relational-algebra terms on every run (T-sql: Generated/GMSql.lean) and PROVED to return exactly "
+        "the encoded tables of the functional model (Properties/C19Sql.lean: nodes, clusters, edges incl. the relabelling round trip, exact rationals), so the C19 theorems are theorems about the regenerated SQL. Tie: every column of nodes/edges/clusters outputs vs the compiled "
         "model on all graphs <=5 nodes and structured families (composite ids, 1-3 tables, duckdb+sqlite); naive oracle (BFS bridges) cross-checked with networkx.",
         "Trusted: Lean kernel + standard axioms; that igraph's bridges agree with the proved naive finder (checked on every run, also against networkx); float evaluation of the quotients; T-sql translator + Rel.eval (validated against the engines).",
         "DESIGN.md §6 C19",
@@ -110,8 +113,11 @@ CLAIMED = {
         "lower id to the left, prediction-error selections): every row's TP/FP/FN/TN/P/N/total is the direct recount at that threshold (not-found pairs predicted negative when the option is on), "
         "conservation identities, monotonicity in the threshold, exactly one row per distinct score, error outputs are exactly the strict false positives / negatives with their status, label "
         "orientation is irrelevant. Tie: truth rows, all 17 rate columns, error rows and prepared labels of the real functions vs the compiled model (labels tables in both orientations, label "
-        "columns with NULLs, ties, blocking that misses pairs, all link types, duckdb+sqlite); independent recount oracle with textbook metric definitions.",
-        "Trusted: Lean kernel + standard axioms; scoring itself is C02's subject (scores are inputs here); rate columns are float expressions checked by correspondence and oracle, not by theorem.",
+        "columns with NULLs, ties, blocking that misses pairs, all link types, duckdb+sqlite); independent recount oracle with textbook metric definitions. The six truth-space statements emitted for a "
+        "labels table are captured from the running code and translated to relational-algebra terms on every run (T-sql: Generated/AccSql.lean); Properties/C15Sql.lean proves that they return a permutation of "
+        "the functional model's rows for every list of labelled pairs and transfers conservation, recount and monotonicity to every row the SQL returns.",
+        "Trusted: Lean kernel + standard axioms; scoring itself is C02's subject (scores are inputs here); rate columns are float expressions checked by correspondence and oracle, not by theorem; "
+        "T-sql translator + Rel.eval (validated on every run); the label-column variant and the statements before / after the six are tied by correspondence only.",
         "DESIGN.md §6 C15",
     ),
     "C20": (
@@ -204,7 +210,8 @@ TECHNIQUE = {
     "C04": _TR.format("T-arith: sampling arithmetic of estimate_u.py"),
     "C05": _TR.format("T-sql: the SQL statements solve_connected_components emits, as relational-algebra terms proved to refine the functional model; T-arith: threshold_args_to_match_prob of misc.py"),
     "C11": _TR.format("T-sql: the SQL statements of the threshold loop of cluster_pairwise_predictions_at_multiple_thresholds and of solve_connected_components; T-arith: threshold_args_to_match_prob_list of misc.py"),
-    "C19": _TR.format("T-sql: the SQL statements compute_graph_metrics emits, as relational-algebra terms evaluated against the engines"),
+    "C19": _TR.format("T-sql: the SQL statements compute_graph_metrics emits, as relational-algebra terms proved to refine the functional model"),
+    "C15": _TR.format("T-sql: the truth-space SQL statements of accuracy.py, as relational-algebra terms proved to refine the functional model"),
     "C14": _TR.format("T-arith: calculate_cartesian of misc.py"),
     "C06": _TR.format("T-dialect: function / infinity / array-index table of the five dialects and the comparators the level creators emit, probed on the real backends"),
     "C16": _TR.format("T-levels: predicate tree of every library comparison level and the level list of every library comparison"),
